@@ -138,7 +138,8 @@ Theorem C18_simplest_from_ieee_glue : forall mb eb bits,
 Proof. exact simplest_from_ieee_asis_closed. Qed.
 Print Assumptions C18_simplest_from_ieee_glue.
 
-(** outside the open finding classes F05-F08 the FBig code computes the specified optimum:
+(** outside the open finding classes F06 (odd base, half modes) and F07 (powers of the base) - F05 and F08 are
+    repaired - the FBig code computes the specified optimum:
     every base, mode, precision, normalised significand with at most p digits, exponent *)
 Theorem C18_simplest_from_float_unless_known : forall B md p sig ex,
   2 <= B -> 0 < p -> sig mod B <> 0 -> ndigits B (Z.abs sig) <= p ->
@@ -147,10 +148,10 @@ Theorem C18_simplest_from_float_unless_known : forall B md p sig ex,
 Proof. exact simplest_from_float_asis_spec. Qed.
 Print Assumptions C18_simplest_from_float_unless_known.
 
+(** unlimited precision: after the repair of F08 no finding class is left, every mode returns the float *)
 Theorem C18_simplest_from_float_unlimited_unless_known : forall B md sig ex, 2 <= B -> sig mod B <> 0 ->
-  known_float B md 0 sig = false ->
   simplest_from_float_asis B md 0 sig ex = simplest_from_float_spec B md 0 sig ex.
-Proof. exact simplest_from_float_asis_spec_unlimited. Qed.
+Proof. exact simplest_from_float_asis_spec_unlimited_all. Qed.
 Print Assumptions C18_simplest_from_float_unlimited_unless_known.
 
 (** outside finding F04 (ulp >= 2) the f32/f64 macro computes the specified optimum, for every
@@ -162,7 +163,7 @@ Theorem C18_simplest_from_ieee_unless_known : forall mb eb bits, 1 <= mb ->
 Proof. exact simplest_from_ieee_asis_spec. Qed.
 Print Assumptions C18_simplest_from_ieee_unless_known.
 
-(** ** findings: the repaired defects stay refuted on the pinned bodies, the open ones on the as-is models *)
+(** ** findings: the repaired defects (F01-F03, F05, F08) stay refuted on the pinned bodies, the open ones on the as-is models *)
 Theorem C18_F01_is_simpler_than_pinned_refuted :
   simpler (1, 2) (5, 3) = true /\ is_simpler_than_pinned (1, 2) (5, 3) = false.
 Proof. exact is_simpler_than_pinned_refuted. Qed.
@@ -186,8 +187,9 @@ Proof. exact simplest_from_ieee_asis_refuted. Qed.
 Print Assumptions C18_F04_simplest_from_ieee_refuted.
 
 Theorem C18_F05_halfeven_refuted :
-  fnormalize 2 5 1 = (5, 1) /\ known_float 2 MHalfEven 3 5 = true /\
-  simplest_from_float_asis 2 MHalfEven 3 5 1 = Ok (Some (9, 1)) /\
+  fnormalize 2 5 1 = (5, 1) /\ known_halfeven MHalfEven 3 = true /\ known_float 2 MHalfEven 3 5 = false /\
+  simplest_from_float_pinned 2 MHalfEven 3 5 1 = Ok (Some (9, 1)) /\
+  simplest_from_float_asis 2 MHalfEven 3 5 1 = Ok (Some (10, 1)) /\
   simplest_from_float_spec 2 MHalfEven 3 5 1 = Ok (Some (10, 1)) /\
   round_to_prec 2 MHalfEven 3 (9, 1) = (8, 1).
 Proof. exact simplest_from_float_halfeven_refuted. Qed.
@@ -208,8 +210,9 @@ Proof. exact simplest_from_float_powbase_refuted. Qed.
 Print Assumptions C18_F07_powbase_refuted.
 
 Theorem C18_F08_unlimited_refuted :
-  known_float 10 MAway 0 123 = true /\
-  simplest_from_float_asis 10 MAway 0 123 (-1) = Panic UnlimitedPrecision /\
+  known_unlimited MAway 0 = true /\ known_float 10 MAway 0 123 = false /\
+  simplest_from_float_pinned 10 MAway 0 123 (-1) = Panic UnlimitedPrecision /\
+  simplest_from_float_asis 10 MAway 0 123 (-1) = Ok (Some (123, 10)) /\
   simplest_from_float_spec 10 MAway 0 123 (-1) = Ok (Some (123, 10)).
 Proof. exact simplest_from_float_unlimited_refuted. Qed.
 Print Assumptions C18_F08_unlimited_refuted.
